@@ -51,5 +51,5 @@ def plan(plan, tier, seed):
         "a fence holds at least one code item (`block.code.last().unwrap()` would panic otherwise): precondition of the arm's contract, a property of the grammar (`mech-code+`), not verified",
         "Interpreter::new(id) builds an interpreter with an empty history; set_functions replaces the function table only",
     ]
-    plan.undecided_clauses += ["C10: which parts of a document are prose, code or fences, and which name a fence has, is decided by the Mechdown PARSER (out of reach, see C09); that evaluating an expression cannot change a variable is a property of expression() (not under contract here); prose inertness is checked only syntactically (arms name no evaluator); the Float / Mika arms; that different fence names get different namespace ids (hash_str)"]
+    plan.undecided_clauses += ["C10: which parts of a document are prose, code or fences, and which name a fence has, is decided by the Mechdown PARSER (out of reach, see C09); that evaluating an expression cannot change a variable is a property of expression() (not under contract here); prose inertness: paragraph_element is under contract (C10.verus.paragraph_element.*), the other prose arms are checked only syntactically (arms name no evaluator); the Float / Mika arms; that different fence names get different namespace ids (hash_str)"]
     plan.level = "proof"
